@@ -28,6 +28,8 @@ func main() {
 		cmdCheck(os.Args[2:])
 	case "replay":
 		cmdReplay(os.Args[2:])
+	case "selftest":
+		cmdSelftest(os.Args[2:])
 	default:
 		usage()
 	}
@@ -68,10 +70,13 @@ func loadSpecs(e *Engine, moduleDir string) error {
 	// contract files: /repo/<pkg>/verif_contracts.go, falling back to the master copy
 	useMaster := os.Getenv("GOCV_CONTRACTS") == "master"
 	for path, p := range e.allPkgs {
-		if p.Module == nil || p.Module.Dir != moduleDir || len(p.GoFiles) == 0 {
+		if p.Module == nil || len(p.GoFiles) == 0 {
 			continue
 		}
 		dir := filepath.Dir(p.GoFiles[0])
+		if !strings.HasPrefix(dir, repoRoot()+"/") {
+			continue
+		}
 		rel, _ := filepath.Rel(repoRoot(), dir)
 		inRepo := filepath.Join(dir, "verif_contracts.go")
 		master := filepath.Join(root, "contracts", rel, "verif_contracts.go")
@@ -170,6 +175,17 @@ func cmdVerify(args []string) {
 		}
 		if *verbose || !g.OK {
 			fmt.Printf("%-6s %s # %s (%d paths, %.2fs) %s\n", status, g.Func, g.Name, g.Paths, g.Seconds, g.Where)
+		}
+		if *dump != "" && *only != "" && g.OK && g.Kind != "cover" {
+			os.MkdirAll(*dump, 0o755)
+			for _, r := range results {
+				for i, o := range r.Obls {
+					if o.Func == g.Func && o.Name == g.Name && o.Query != "" {
+						name := strings.NewReplacer("/", "_", "[", "_", "]", "_", "#", "_", "@", "_", " ", "_", "*", "").Replace(g.Func[strings.LastIndex(g.Func, "/")+1:] + "_" + g.Name)
+						os.WriteFile(filepath.Join(*dump, fmt.Sprintf("ok_%s_%d.smt2", name, i)), []byte("; trail "+o.Trail+"\n"+o.Query), 0o644)
+					}
+				}
+			}
 		}
 		if !g.OK {
 			for i, o := range g.Failed {
